@@ -21,6 +21,7 @@ import re
 import sys
 import os
 
+NEEDS = {}
 BEGIN = " /*@LC*/ "
 END = " /*@*/ "
 
@@ -42,6 +43,9 @@ def parse_loops_file(path):
             if key is not None:
                 out[key] = " ".join(" ".join(buf).split())
             parts = s[1:].split()
+            if len(parts) == 4 and parts[2] == "needs":
+                NEEDS[(os.path.basename(path), parts[0], int(parts[1]))] = parts[3]
+                parts = parts[:2]
             if len(parts) != 2:
                 raise AnnotateError("bad key line in %s: %r" % (path, s))
             key = (parts[0], int(parts[1]))
@@ -282,10 +286,15 @@ def loop_map(src):
     return table, counts
 
 
-def annotate_text(src, clauses):
+def lc_name(tag, key):
+    return "LC_%s_%s_%d" % (tag, re.sub(r"\W", "_", key[0]), key[1])
+
+
+def annotate_text(src, clauses, tag="x"):
     table, counts = loop_map(src)
     ins = []
     for key, text in clauses.items():
+        text = lc_name(tag, key)
         if key not in table:
             raise AnnotateError("anchor not found: function %s loop %d (function has %s loops)"
                                 % (key[0], key[1], counts.get(key[0], "no such function;")))
@@ -309,14 +318,23 @@ def annotate_text(src, clauses):
 def annotate_file(repo_file, loops_file, out_file):
     src = open(repo_file, encoding="latin-1").read()
     clauses = parse_loops_file(loops_file)
-    res, counts = annotate_text(src, clauses)
+    tag = os.path.basename(repo_file)[:-2]
+    res, counts = annotate_text(src, clauses, tag)
     with open(out_file, "w", encoding="latin-1") as f:
         f.write(res)
     # byte-level re-check against the file on disk
     back = re.sub(re.escape(BEGIN) + r".*?" + re.escape(END), "", open(out_file, encoding="latin-1").read())
     if back.encode("latin-1") != open(repo_file, "rb").read():
         raise AnnotateError("strip-and-compare (bytes) failed for %s" % repo_file)
-    return {"file": os.path.basename(repo_file), "loops_annotated": len(clauses),
+    defs = []
+    for key, text in clauses.items():
+        need = NEEDS.get((os.path.basename(loops_file), key[0], key[1]))
+        name = lc_name(tag, key)
+        if need:
+            defs.append("#ifdef %s\n#define %s %s\n#else\n#define %s\n#endif" % (need, name, text, name))
+        else:
+            defs.append("#define %s %s" % (name, text))
+    return {"file": os.path.basename(repo_file), "loops_annotated": len(clauses), "_defs": defs,
             "loops_total": sum(v for k, v in counts.items() if not k.startswith("macro:"))}
 
 
